@@ -123,12 +123,16 @@ def types_corpus(depth=2):
     unions += [Union[Dict[FX.Falsy, int], Dict[str, str]], Union[Dict[str, str], Dict[FX.Falsy, int]], Union[Dict[FX.Falsy, int], Dict[FX.Falsy, str]],
                Union[Tuple[FX.Falsy], Tuple[FX.Falsy, FX.Falsy], Tuple[str], Tuple[str, str], Tuple[str, str, str], Tuple[str, str, str, str]],
                Union[Tuple[str], Tuple[str, str], Tuple[FX.Falsy], Tuple[FX.Falsy, FX.Falsy], Tuple[str, str, str], Tuple[str, str, str, str]]]
+    # user classes deriving from Generic[T] / a Protocol: their only common ancestors are typing.Generic / typing.Protocol, which are not types
+    unions += [Union[FX.Repo1, FX.Repo2], Union[FX.Repo1, FX.Repo2, FX.Repo3], Union[FX.Impl1, FX.Impl2], Union[FX.Repo1, FX.Repo2, FX.Repo3, FX.Impl1, FX.Impl2, int, str],
+               Union[FX.Repo1, FX.Repo2, FX.Repo3, FX.Impl1, FX.Impl2, FX.Left]]
     tups = [Tuple[()], Tuple[int], Tuple[int, int], Tuple[int, int, int], Tuple[int, int, int, int], Tuple[int, int, int, int, int], Tuple[int, int, int, int, int, int]]
     unions += [Union[tuple(tups)], Union[tuple(tups[1:] + tups[:1])], Union[tuple(tups[1:4] + tups[:1] + tups[4:])],
                Union[Dict[Any, Any], DefaultDict[str, int]], Union[DefaultDict[Any, Any], Dict[str, int]], Union[DefaultDict[Any, Any], DefaultDict[str, int]],
                Union[List[Any], Set[int]], Union[Set[Any], Dict[str, int], List[Any]]]
     out += unions[n0:]
+    out += [List[Union[FX.Repo1, FX.Repo2]], Dict[str, Union[FX.Impl1, FX.Impl2]], List[Union[FX.Repo1, FX.Repo2, FX.Repo3, FX.Impl1, FX.Impl2, FX.Left]]]
     if depth >= 2:
-        for u in unions[:8] + gen1[:10]:
+        for u in unions[:8] + gen1[:10] + [Union[FX.Repo1, FX.Repo2], Union[FX.Repo1, FX.Repo2, FX.Repo3, FX.Impl1, FX.Impl2, FX.Left]]:
             out += [List[u], Dict[str, u], Tuple[u, int], Optional[u] if u is not Any else u]
     return out
